@@ -74,6 +74,13 @@ def nonce_gen(cls, rc, bias, rng, count):
   return out
 
 
+def lcg_models(curve_type):
+  """[sample_size, min_signatures, sliding_window_size] of every shipped GMP model of the curve, in table order."""
+  from paranoid_crypto.lib import lcg_constants as lc
+  return [[int(c['sample_size']), int(c['min_signatures']), int(c['sliding_window_size'])] for c in lc.CONSTANT_FACTORY
+          if c['curve'] == curve_type and c['lcg'] == lc.LcgName.GMP]
+
+
 def lcg_needed(curve_type, size):
   from paranoid_crypto.lib import lcg_constants as lc
   for c in lc.CONSTANT_FACTORY:
@@ -100,7 +107,17 @@ def build_batch(cell, inst):
   cls, curve, bias = cell['cls'], cell['curve'], cell['bias']
   count = cell['count']
   if cls == 'lcg':
-    count = max(lcg_needed(nc[curve][0], bias), 2) if lcg_needed(nc[curve][0], bias) else 4
+    need = lcg_needed(nc[curve][0], bias)
+    off = cell['count']
+    if not need:
+      count = 4
+    elif off == 99:
+      from paranoid_crypto.lib import lcg_constants as lc
+      mins = [int(c['min_signatures']) for c in lc.CONSTANT_FACTORY if c['curve'] == nc[curve][0] and c['lcg'] == lc.LcgName.GMP
+              and c['lcg_output_size'] == bias]
+      count = max(1, mins[0] - 1)
+    else:
+      count = max(need, 2) + off
   if not add_group(cls, curve, bias, count, 'w'):
     return None
   other = 'secp384r1' if curve != 'secp384r1' else 'secp256r1'
@@ -160,7 +177,16 @@ def run_cell(args):
         calls.append(len(a))
         return orig(a, b, *rest, **kw)
       hnp.HiddenNumberProblem = wrapper
-    rec = {'sid': sid, 'ev': 'nonce', 'args': {'check': name, 'groups': groups, 'sigs': [{'g': gid_of[a.aid]} for a in batch]},
+    lcgcalls = []
+    orig2 = getattr(hnp, 'HiddenNumberProblemWithPrecomputation', None)
+    if orig2 is not None:
+      def wrapper2(a0, b0, n_, constants, *rest, **kw):
+        lcgcalls.append([len(a0), len(constants)])
+        return orig2(a0, b0, n_, constants, *rest, **kw)
+      hnp.HiddenNumberProblemWithPrecomputation = wrapper2
+    nc_ = gen.named_curves()
+    models = [lcg_models(nc_[g['curve']][0]) if (name == 'CheckLCGNonceGMP' and g['curve'] in nc_) else [] for g in groups]
+    rec = {'sid': sid, 'ev': 'nonce', 'args': {'check': name, 'groups': groups, 'models': models, 'sigs': [{'g': gid_of[a.aid]} for a in batch]},
            'obs': {}, 'raised': 'none', 'scenario': {'cell': cell, 'instance': inst}}
     try:
       chk.Check([a.proto for a in batch])
@@ -170,12 +196,15 @@ def run_cell(args):
         ent = [e for e in ti['entries'] if e['name'] == name]
         flag.append(bool(ent and ent[0]['result']))
         ok.append(ti['dlog'] == 'ok')
-      rec['obs'] = {'flag': flag, 'dlog_ok': ok, 'calls': calls if orig is not None else [-1]}
+      rec['obs'] = {'flag': flag, 'dlog_ok': ok, 'calls': calls if orig is not None else [-1],
+                    'lcgcalls': lcgcalls if (orig2 is not None and name == 'CheckLCGNonceGMP') else [[-1, -1]]}
     except Exception as e:  # pylint: disable=broad-except
       rec['raised'] = type(e).__name__
     finally:
       if orig is not None:
         hnp.HiddenNumberProblem = orig
+      if orig2 is not None:
+        hnp.HiddenNumberProblemWithPrecomputation = orig2
     return sid, rec, None
   except Exception:  # pylint: disable=broad-except
     return sid, None, traceback.format_exc()
